@@ -6,6 +6,7 @@ import (
 	"flag"
 	"fmt"
 	"os"
+	"sort"
 	"strings"
 
 	"verif/harness/drv"
@@ -152,11 +153,25 @@ func main() {
 			}
 		}
 		for _, x := range strings.Split(*fillFlag, ",") {
-			var a uint64
-			if n, _ := fmt.Sscanf(x, "%d", &a); n == 1 {
+			var a, b uint64
+			if n, _ := fmt.Sscanf(x, "%d-%d", &a, &b); n == 2 {
+				for v := a; v <= b; v++ {
+					fill[v] = true
+				}
+			} else if n, _ := fmt.Sscanf(x, "%d", &a); n == 1 {
 				fill[a] = true
 			}
 		}
+		have := map[uint64]bool{}
+		for _, v := range sizes {
+			have[v] = true
+		}
+		for v := range fill {
+			if !have[v] {
+				sizes = append(sizes, v)
+			}
+		}
+		sort.Slice(sizes, func(i, j int) bool { return sizes[i] < sizes[j] })
 		drv.RunLayout(sizes, fill, t, 0)
 		t.Close()
 		fmt.Printf("events=%d\n", t.N)
@@ -231,6 +246,14 @@ func main() {
 			panic(err)
 		}
 		drv.RunBmap(*seed, *steps, t, 0)
+		t.Close()
+		fmt.Printf("events=%d\n", t.N)
+	case "txnfit":
+		t, err := drv.NewTrace(*out)
+		if err != nil {
+			panic(err)
+		}
+		drv.RunTxnFit(*seed, *steps < 100, t, 0)
 		t.Close()
 		fmt.Printf("events=%d\n", t.N)
 	case "argsweep":
